@@ -26,7 +26,8 @@ Verdict per cell for one shape:   COVERED (1), NOT (0), UNJUDGED (-1)
   (For boxes this is the property's own closed form: start and end in the same bin = no bin.)
 * dim 1 / dim 0 (time stamps, points, line strings): "centre inside" is not defined for a shape
   without interior; the property does not say which cells a line or a point marks.  Cells whose
-  closed square the shape touches are UNJUDGED, all other cells are NOT covered.
+  closed square touches the shape (for a polyline: touches the bounding box of the mapped polyline)
+  are UNJUDGED, all other cells are NOT covered.
 "touched": the closed unit square of the cell is within EPS of the shape (what all_touched may add
 at most; a cell that is not touched is "untouched" under either setting).
 """
@@ -119,6 +120,13 @@ def cover(dim, verts, nt, nf):
         mode, solid, edge = "thin", _thin(verts, closed=(dim == 2)), None
         if dim == 2:  # collapsed ring: no interior; only centres on the ring are unjudged
             mode, edge = "collapsed", solid
+        elif dim == 1:
+            # which cells a polyline marks is not defined by the property (line burning is a pixel-walk,
+            # not a centre test): everything the bounding box of the mapped line touches is unjudged
+            xs = [p[0] for p in verts]
+            ys = [p[1] for p in verts]
+            if min(xs) < max(xs) and min(ys) < max(ys):
+                solid = box(min(xs), min(ys), max(xs), max(ys))
     for i in range(nt):
         for j in range(nf):
             tch = box(i, j, i + 1, j + 1).distance(solid) <= EPS
